@@ -336,11 +336,12 @@ def judge_request(run):
 
 
 def req_replay(run, why):
-    return {'what': 'CMDRequest: ' + why, 'block': 'CMDRequest', 'kind_of_case': 'request', 'widths': run['W'],
-            'stream': cmds_text(run['cmds']), 'cmds': [[k, a] for k, a in run['cmds']], 'sched': [[g, ch] for g, ch in run['sched']],
+    return {'what': 'CMDRequest: ' + why, 'block': 'CMDRequest', 'kind_of_case': 'request',
+            'stream': cmds_text(run['cmds']), 'widths': run['W'],
             'expected_events': [list(e) for e in py_expected(run['cmds'], run['W'])], 'observed_events': [list(e) for e in run['events']],
             'event_legend': '1=set_index_in(index_in) 2=set_v_in(v_in) 3=set_index_out(index_out) 4=clk_pulse 5=start_resp',
-            'cycles': len(run['trace']), 'final_state': run['final_state'], 'final_temp': run['final_temp'], 'producer_items_left': run['left']}
+            'cycles': len(run['trace']), 'final_state': run['final_state'], 'final_temp': run['final_temp'], 'producer_items_left': run['left'],
+            'cmds': [[k, a] for k, a in run['cmds']], 'sched': [[g, ch] for g, ch in run['sched']]}
 
 
 def coq_req_case(run):
@@ -398,9 +399,11 @@ def judge_response(run):
 
 
 def resp_replay(run, why):
-    return {'what': 'CMDResponse: ' + why, 'block': 'CMDResponse', 'kind_of_case': 'response', 'cfg': run['cfg'],
-            'inputs(vin,size,start_resp,ready)': run['ins'], 'expected_chars': ''.join(chr(c) for c in py_responses(run['cfg']['requests'])),
-            'observed_chars': ''.join(chr(c) if 32 <= c < 127 else '\\x%02x' % c for c in run['xfers']), 'final_state': run['final_state']}
+    return {'what': 'CMDResponse: ' + why, 'block': 'CMDResponse', 'kind_of_case': 'response',
+            'requests(value,nibbles)': [list(x) for x in run['cfg']['requests']],
+            'expected_chars': ''.join(chr(c) for c in py_responses(run['cfg']['requests'])),
+            'observed_chars': ''.join(chr(c) if 32 <= c < 127 else '\\x%02x' % c for c in run['xfers']), 'final_state': run['final_state'],
+            'cfg': run['cfg'], 'inputs(vin,size,start_resp,ready)': run['ins']}
 
 
 def coq_resp_case(run):
@@ -430,6 +433,46 @@ def size0_probe(py4hw):
     s = ''.join(map(chr, xf))
     return {'outcome': 'ok' if s == '=!' and blk.state == 0 else 'wrong', 'detail': 'transferred %r, state %d' % (s, blk.state)}
 
+
+
+# ------------------------------------------------------------------ shrinking a failing case
+def shrink_request(py4hw, run):
+    """smallest failing variant found: a single command of the stream, tight schedule, shorter digit string."""
+    W = run['W']
+    def fails(cmds, sched=None):
+        sched = sched if sched is not None else [([], ch) for ch in encode(cmds)]
+        r = run_request(py4hw, W, sched); r.update(W=W, cmds=cmds, sched=sched)
+        bad = judge_request(r)
+        return (r, bad) if bad else None
+    best = None
+    for c in run['cmds']:
+        f = fails([c])
+        if f: best = f; break
+    if best is None:
+        f = fails(run['cmds'])
+        if f: best = f
+    if best is None: return None
+    changed = True
+    while changed:
+        changed = False
+        cmds = best[0]['cmds']
+        for i, (k, a) in enumerate(cmds):
+            if k == 'X': continue
+            for j in range(len(a)):
+                cand = cmds[:i] + [(k, a[:j] + a[j + 1:])] + cmds[i + 1:]
+                f = fails(cand)
+                if f: best = f; changed = True; break
+            if changed: break
+    return best
+
+
+def shrink_response(py4hw, run):
+    for v, k in run['cfg']['requests']:
+        cfg = dict(run['cfg'], requests=[(v, k)], pace=100, junk=False)
+        r = run_response(py4hw, cfg, random.Random(1)); r['idx'] = -1
+        bad = judge_response(r)
+        if bad: return r, bad
+    return None
 
 # ------------------------------------------------------------------ replay
 def replay(py4hw, rp):
